@@ -327,6 +327,54 @@ def gen_data(R):
             "valsnan": [[None if R.rng.random() < 0.3 else x for x in row] for row in vals], "seed": R.rng.randrange(10 ** 6), "pref": pref}
 
 
+@guard
+def impl_validate(case):
+    """valid and malformed arguments through the library's validators, in every storage type that can hold them"""
+    import warnings
+    warnings.filterwarnings("ignore")
+    from harness import validatelib
+    return {"cases": validatelib.build_cases(case["seed"], case["arrays"], case["graphs"], case["params"])}
+
+
+def run_validation(R, seeds, arrays, graphs, params):
+    """(a) PROPERTY: the verdict of every validator (accept / which error) must be the same for the int32, int64 and float64 encodings of
+    the same numbers ("raises in exactly the same cases"); (b) model coverage: the verdict equals the Lean model's (Validate.lean,
+    theorems C20_* in Props/C20Validate.lean) -- reported, not a verdict, because a stricter validator would be a harmless change"""
+    from harness.common import lean_query
+    jobs = [{"seed": s, "arrays": arrays, "graphs": graphs, "params": params} for s in seeds]
+    results = pmap("c20", "impl_validate", jobs, deadline=300.0, workers=12)
+    allc = []
+    for j, r in zip(jobs, results):
+        if "cases" not in r:
+            R.violation("property_violation", "validators terminate on malformed arguments", ENTRY, j, impl_output=r, oracle="validation stream raised/hang")
+            continue
+        allc += [dict(c, seed=j["seed"]) for c in r["cases"]]
+    answers = lean_query([c["line"] for c in allc])
+    groups = {}
+    for c, a in zip(allc, answers):
+        op = c["line"].split()[0]
+        if c["real"].startswith("UNMAPPED"):
+            # an exception the model does not know (a new message / class): model coverage, not a verdict
+            R.glue("validators:" + op, False, {"line": c["line"][:300], "real": c["real"], "model": a})
+        else:
+            R.glue("validators:" + op, c["real"] == a, {"line": c["line"][:300], "real": c["real"], "model": a})
+        R.count("validation_verdict:" + c["real"].split(" ctor")[0].split(" call")[0][:40])
+        if c["arr"] and c["key"] is not None:
+            groups.setdefault((c["seed"], c["key"]), {})[c["enc"]] = (c["real"], c["line"])
+    multi = 0
+    for (seed, key), g in groups.items():
+        if len(g) < 2:
+            continue
+        multi += 1
+        verdicts = {enc: v[0] for enc, v in g.items()}
+        if len(set(verdicts.values())) > 1:
+            R.violation("property_violation", "a validator raises in exactly the same cases whether the numbers are stored as integers or as floating-point numbers",
+                        "socialchoicekit.utils / profile_utils validators", {"check": key, "op_lines": {enc: v[1][:400] for enc, v in g.items()}},
+                        impl_output=verdicts, oracle="verdict depends on the storage type")
+    R.extra["validation_stream"] = {"op_lines": len(allc), "array_checks_in_more_than_one_storage_type": multi}
+    R.evaluations += multi
+
+
 def run(R):
     R.rule = ("random valid arguments for every public entry point of every module (enumerated from the modules' public names; a public name without "
               "a registered caller is reported); bit-exact snapshots of all arguments (arrays, profile views together with their base arrays, graph "
@@ -364,8 +412,13 @@ def run(R):
         if missing:
             R.corr_break("every public entry point has a registered caller", ENTRY, {"unregistered": missing}, None, None)
         R.samples.append({"entry_points_exercised": sorted(covered)[:200]})
-    R.extra["explanation"] = ("Correspondence-only check: %d public entry points enumerated, %d exercised on %d instance bundles x 3 rank dtypes with bit-exact "
-                              "before/after comparison of every argument; no Lean theorem is involved (a pure model cannot mutate and has no dtypes)."
+    run_validation(R, [R.rng.randrange(10 ** 6) for _ in range(24 if R.thorough else 6)], 120 if R.thorough else 60, 150, 60)
+    R.extra["explanation"] = ("Correspondence check: %d public entry points enumerated, %d exercised on %d instance bundles x 3 rank dtypes with bit-exact "
+                              "before/after comparison of every argument (a pure model cannot mutate and has no dtypes, so no theorem speaks about that part). "
+                              "The 'raises in exactly the same cases' clause additionally has a Lean model: the validators and parameter checks "
+                              "(Sck/Model/Validate.lean, 58 theorems C20_* incl. acceptance characterisations and the bridge to the theorems' well-formedness "
+                              "hypotheses); the stream of valid and malformed arguments is run in every storage type that can hold the numbers (verdicts must "
+                              "coincide: the property) and compared with the model's verdict (model coverage, reported as glue correspondence)."
                               % (len(public or []), len(covered), len(cases)))
 
 
